@@ -57,7 +57,7 @@ def run(ctx):
     set_declaration_order_varies(True)     # some datasets declare the x dimension before y
     from ..model.grids import set_wide_longitudes
     set_wide_longitudes(True)      # also datasets in the 0..360 convention / straddling 180 degrees
-    total = ctx.n(1000, 15000)
+    total = ctx.n(1000, 80000)
     for case, rng in ctx.cases(total):
         f = forced(case)
         conv, kw = f if f else (CONVENTIONS[case % len(CONVENTIONS)], {})
